@@ -1054,6 +1054,12 @@ func monC15(f *Facts, pre, post *Dump, ev XEvent, newEvents []Event, listed inte
 			for i, t := range j.Tasks {
 				deps[t.Name] = t.Deps
 				pos[t.Name] = i
+				// task start <= task end: a job that is reported finished has no task that is still running, and a task of it
+				// that has an end has a start
+				if j.Completed && (t.Status == "running" || (t.HasEnd && !t.HasStart)) {
+					vs = append(vs, Violation{Property: "C15", Rule: "task-times", Norm: "finished-job-reports-unfinished-task",
+						Msg: fmt.Sprintf("job %d is reported completed but its task %s is reported %s (start=%v end=%v): %s", j.Idx, t.Name, t.Status, t.HasStart, t.HasEnd, jobStr(j))})
+				}
 			}
 			if isDAG(deps) {
 				for _, t := range j.Tasks {
